@@ -44,8 +44,10 @@ func runC15(c *Ctx) {
 	c.Rule("C15-R4", "error discipline at every API call site in internal/checks", 60)
 	c.Rule("C15-R5", "cache protocol: only successes are stored, key names the upstream (shared with C14-R3)", 9)
 	defer c14CacheR(c, "C15-R5")
+	defer c14HashIsADigest(c, "C15-R5")
 	defer c15NoStickyOutage(c)
 	defer c15DeadlineAboveServerLimit(c)
+	defer c15UpstreamIdentityAndOrder(c)
 	defer checkSearchFlags(c, "C15-R1", "internal/promapi.FailoverGroup.MergeUpstreams", "internal/config.Discovery.merge")
 	defer checkParamsUsed(c, "C15-R3", "internal/promapi.NewFailoverGroup", "internal/promapi.NewPrometheus", "internal/config.newFailoverGroup")
 
@@ -1301,4 +1303,166 @@ func c15DeadlineAboveServerLimit(c *Ctx) {
 		return true
 	})
 	c.Check(nCtx == 1, R, "requestContext:one deadline", rc.Decl.Pos(), itoa(nCtx), "expected exactly one context.WithTimeout")
+}
+
+// c15UpstreamIdentityAndOrder: three structural facts about the upstream list of
+// a failover group that "the first reachable upstream in the configured order
+// answers" rests on. (a) Each upstream has an API tracker of its own: what is
+// stored in Prometheus.apis is a tracker allocated at that spot (per upstream),
+// never one variable shared by the upstreams of a group — a 404 on an optional
+// API of one upstream would otherwise stop the others from being asked. (b) The
+// failover addresses keep their configured order on the whole way from the
+// configuration (static block or discovery template) to the group: nothing
+// sorts, compacts or reverses a list that ends up in PrometheusConfig.Failover.
+// (c) When discovered groups are merged, two upstreams are the same upstream
+// exactly when their request URIs are equal (the public URI is shared by all
+// members of a group).
+func c15UpstreamIdentityAndOrder(c *Ctx) {
+	R := "C15-R1"
+	p := c.P
+	prom := p.Pkg("internal/promapi")
+	cfg := p.Pkg("internal/config")
+	if prom == nil || cfg == nil {
+		return
+	}
+	// (a)
+	info := prom.TypesInfo
+	nA := 0
+	for _, fi := range p.AllFuncs() {
+		if fi.Pkg != prom || fi.Decl.Body == nil || p.IsTestFile(fi.Decl.Pos()) {
+			continue
+		}
+		pm := parentMap(fi.Decl.Body)
+		check := func(rhs ast.Expr, at ast.Node) {
+			nA++
+			r := ast.Unparen(rhs)
+			ok := false
+			why := "`" + exprStr(rhs) + "`"
+			isFreshLit := func(e ast.Expr) bool {
+				if u, isU := ast.Unparen(e).(*ast.UnaryExpr); isU && u.Op == token.AND {
+					_, isLit := ast.Unparen(u.X).(*ast.CompositeLit)
+					return isLit
+				}
+				if call, isCall := ast.Unparen(e).(*ast.CallExpr); isCall && exprStr(call.Fun) == "new" {
+					return true
+				}
+				return false
+			}
+			if isFreshLit(r) {
+				ok = true
+			} else if id, isID := r.(*ast.Ident); isID {
+				// a local: allocated inside the innermost loop around the store (one per upstream)
+				def := singleDef(info, fi.Decl.Body, id)
+				if def != nil && isFreshLit(def) {
+					var loop ast.Node
+					for cur := pm[at]; cur != nil; cur = pm[cur] {
+						switch cur.(type) {
+						case *ast.ForStmt, *ast.RangeStmt:
+							if loop == nil {
+								loop = cur
+							}
+						}
+					}
+					ok = loop == nil || (loop.Pos() <= def.Pos() && def.End() <= loop.End())
+					if !ok {
+						why = "`" + id.Name + "`, allocated once outside the loop over the upstreams"
+					}
+				}
+			}
+			c.Check(ok, R, strings.TrimPrefix(fi.Name, "internal/promapi.")+":every upstream gets an API tracker of its own#"+itoa(nA), at.Pos(), "allocated at the store",
+				"Prometheus.apis is filled with "+why+": the upstreams of a group then share one record of unsupported APIs, and a 404 from the first upstream makes the group answer `unsupported` instead of asking the next one")
+		}
+		ast.Inspect(fi.Decl.Body, func(nd ast.Node) bool {
+			switch x := nd.(type) {
+			case *ast.AssignStmt:
+				for i, l := range x.Lhs {
+					if fieldSel(info, l, "internal/promapi.Prometheus", "apis") && i < len(x.Rhs) {
+						check(x.Rhs[i], x)
+					}
+				}
+			case *ast.CompositeLit:
+				if typeQName(info.TypeOf(x)) == "internal/promapi.Prometheus" {
+					if v := litField(x, "apis"); v != nil {
+						check(v, x)
+					}
+				}
+			}
+			return true
+		})
+	}
+	c.Check(nA >= 1, R, "stores to Prometheus.apis enumerated", token.NoPos, itoa(nA), "no store found")
+	// (b)
+	cinfo := cfg.TypesInfo
+	nB, bad := 0, ""
+	badPos := token.NoPos
+	for _, fi := range p.AllFuncs() {
+		if fi.Pkg != cfg || fi.Decl.Body == nil || p.IsTestFile(fi.Decl.Pos()) {
+			continue
+		}
+		// variables that end up in a Failover field
+		flows := map[types.Object]bool{}
+		ast.Inspect(fi.Decl.Body, func(nd ast.Node) bool {
+			if cl, ok := nd.(*ast.CompositeLit); ok && typeQName(cinfo.TypeOf(cl)) == "internal/config.PrometheusConfig" {
+				if v := litField(cl, "Failover"); v != nil {
+					if o := objOf(cinfo, v); o != nil {
+						flows[o] = true
+					}
+				}
+			}
+			return true
+		})
+		ast.Inspect(fi.Decl.Body, func(nd ast.Node) bool {
+			call, ok := nd.(*ast.CallExpr)
+			if !ok || len(call.Args) == 0 {
+				return true
+			}
+			fn := Callee(cinfo, call)
+			if fn == nil || fn.Pkg() == nil || (fn.Pkg().Path() != "slices" && fn.Pkg().Path() != "sort") {
+				return true
+			}
+			a := call.Args[0]
+			isFailover := fieldSel(cinfo, a, "internal/config.PrometheusConfig", "Failover") || fieldSel(cinfo, a, "internal/config.PrometheusTemplate", "Failover") || flows[objOf(cinfo, a)]
+			if !isFailover {
+				return true
+			}
+			nB++
+			switch fn.Name() {
+			case "Contains", "Index", "IndexFunc", "ContainsFunc", "Clone", "Equal":
+			default:
+				bad, badPos = "`"+exprStr(call)+"` in "+shortFuncName(fi.Name), call.Pos()
+			}
+			return true
+		})
+	}
+	c.Check(bad == "", R, "the configured failover order is never rearranged in internal/config", badPos, itoa(nB)+" slice operations on failover lists",
+		bad+" sorts, compacts or otherwise rearranges the failover addresses: queries then go to the smallest address first, not to the first configured one")
+	// (c)
+	if mu := c.MustFunc(R, "internal/promapi.FailoverGroup.MergeUpstreams"); mu != nil {
+		nC, okC := 0, true
+		got := ""
+		ast.Inspect(mu.Decl.Body, func(nd ast.Node) bool {
+			be, ok := nd.(*ast.BinaryExpr)
+			if !ok || (be.Op != token.EQL && be.Op != token.NEQ) {
+				return true
+			}
+			ox, oy := fieldOwner(info, selOf(be.X)), fieldOwner(info, selOf(be.Y))
+			if ox != "internal/promapi.Prometheus" || oy != "internal/promapi.Prometheus" {
+				return true
+			}
+			nC++
+			if selOf(be.X).Sel.Name != "unsafeURI" || selOf(be.Y).Sel.Name != "unsafeURI" {
+				okC, got = false, exprStr(be)
+			}
+			return true
+		})
+		c.Check(nC >= 1 && okC, R, "MergeUpstreams:upstreams are the same when their request URIs are", mu.Decl.Pos(), "unsafeURI == unsafeURI",
+			"two upstreams are compared with `"+got+"`: the public URI (and the name) is common to all members of a group, so every discovered replica after the first is taken for a duplicate and dropped — when the first one is down nobody else is asked")
+	}
+}
+
+func selOf(e ast.Expr) *ast.SelectorExpr {
+	if s, ok := ast.Unparen(e).(*ast.SelectorExpr); ok {
+		return s
+	}
+	return &ast.SelectorExpr{X: &ast.Ident{Name: "_"}, Sel: &ast.Ident{Name: "_"}}
 }
